@@ -17,6 +17,9 @@ Fixpoint wfv (v : value) : bool :=
 Lemma in_size_between lo hi n : in_size lo hi n = true <-> between lo hi n.
 Proof. unfold in_size, between. rewrite andb_true_iff, !Z.leb_le. tauto. Qed.
 
+Lemma float_unbounded_spec lo hi : float_unbounded lo hi = true <-> unbounded_float lo hi.
+Proof. unfold float_unbounded, unbounded_float. rewrite andb_true_iff, !Z.leb_le. tauto. Qed.
+
 Definition dens (d : ty -> value -> Prop) : list ty -> list (value -> Prop) :=
   fix go (l : list ty) := match l with [] => [] | t' :: r => d t' :: go r end.
 Lemma dens_map d l : dens d l = map d l.
@@ -134,9 +137,17 @@ Section SpecEq.
     - destruct u; cbn; split; try congruence; try (intros (z0 & H & _); congruence).
       + intros H. apply in_size_between in H. eauto.
       + intros (z0 & H & Hb). injection H as <-. apply in_size_between. exact Hb.
-    - destruct u; cbn; split; try congruence; try (intros (z0 & H & _); congruence).
-      + intros H. apply in_size_between in H. eauto.
-      + intros (z0 & H & Hb). injection H as <-. apply in_size_between. exact Hb.
+    - (* Float: the floats between the bounds; the unbounded range has NaN too *)
+      destruct u; cbn [inst den]; split; try congruence;
+        try (intros [(z0 & H & _)|(H & _)]; congruence).
+      + intros H. left. exists k. split; [reflexivity|]. apply orb_true_iff in H. destruct H as [H|H].
+        * left. apply in_size_between. exact H.
+        * right. apply float_unbounded_spec. exact H.
+      + intros [(z0 & H & Hb)|(H & _)]; [|congruence]. injection H as <-. apply orb_true_iff. destruct Hb as [Hb|Hb].
+        * left. apply in_size_between. exact Hb.
+        * right. apply float_unbounded_spec. exact Hb.
+      + intros H. right. split; [reflexivity|]. apply float_unbounded_spec. exact H.
+      + intros [(z0 & H & _)|(_ & Hb)]; [congruence|]. apply float_unbounded_spec. exact Hb.
     - destruct u; cbn; split; try congruence; eauto; intros [(? & H)|[(? & H)|H]]; congruence.
     - destruct u; cbn; split; try congruence; try (intros _; pick);
         intros [(? & H)|[(? & H)|[(? & H)|[H|[(? & H)|(? & H)]]]]]; congruence.
